@@ -7,7 +7,8 @@ from pathlib import Path
 
 ROOT = Path(__file__).resolve().parents[1]
 sys.path.insert(0, str(ROOT / "harness"))
-sys.path.insert(0, "/repo/src")
+import os
+sys.path.insert(0, os.path.join(os.environ.get("AIU_REPO", "/repo"), "src"))
 
 props = [json.loads(l) for l in (ROOT / "properties.jsonl").read_text().splitlines() if l.strip()]
 checks, na = [], []
